@@ -95,6 +95,7 @@ def run(ctx):
 
     alpha = e1.REDUCED if ctx.quick else e1.FULL
     st = e1.explore(ctx.pool, base, [alpha], 1, on_exec, skip_cp=lambda cp: cp["kind"] == "hook")
+    flows.account_divergences(res, st)
     res.extra["e1_paths"] = {"bound": 1, "executions": st["executions"], "limits": lim}
     # account update / key change / external binding paths
     more = []
